@@ -658,6 +658,43 @@ def explore(tier, seed, res=None, replay=None):
         if len(res.samples) < 5:
             res.samples.append({"formula": formula, "missing_in": cols, "used": drop["used"],
                                 "rows_kept": sum(bool(c) for c in complete), "rows": len(complete)})
+    # 'pass' with a transform that FITS parameters to its column (center / scale / standardize): when
+    # the missing values of the used variables all sit in that one column, the rows the transform
+    # sees under 'pass' (pandas skips the missing ones) are the rows 'drop' keeps, so the complete
+    # rows are encoded exactly as under 'drop' (eleventh seeded wave, C09_R: a standard deviation
+    # whose sum skipped the missing rows while its divisor counted them)
+    fit_cases = []
+    if replay is None or replay.get("kind") == "pass-fitted-transform":
+        ks = [replay["seed_path"]] if replay is not None else range(24 if tier == "quick" else 300)
+        for k in ks:
+            rp = rng_for(seed, "c09", "pass-fitted", k)
+            v = rp.choice(["x", "z"])
+            formula = rp.choice(["y ~ scale({v})", "y ~ center({v}) + f", "y ~ scale({v}):f + g",
+                                 "y ~ standardize({v}) + (scale({v}) | g)", "y ~ f + scale({v}) + center({v})",
+                                 "y ~ 0 + scale({v}, center=False)", "y ~ scale({v}) + (1 | h)"]).format(v=v)
+            data = designs.scramble_index(rp, punch(rp, make_frame(rp).reset_index(drop=True), [v], 0.6))
+            fit_cases.append(({"formula": formula, "seed_path": k, "kind": "pass-fitted-transform",
+                               "missing_in": [v]}, formula, data, v))
+    for case, formula, data, v in fit_cases:
+        res.evaluations += 1
+        ps, dr = run(formula, data, "pass"), run(formula, data, "drop")
+        if "err" in ps or "err" in dr:
+            res.count("pass-fitted-transform: refused (%s / %s)" % (ps.get("err"), dr.get("err")))
+            continue
+        res.count("pass-fitted-transform cases (complete rows compared with drop)")
+        res.nontrivial.add((formula, "pass-fitted", case["seed_path"]))
+        keep = [not pd.isna(x) for x in data[v].tolist()]
+        parts, problems = [], []
+        for p in ("response", "common", "group"):
+            if ps[p] is not None and dr[p] is not None:
+                rows = [row for row, kp in zip(ps[p], keep) if kp]
+                if rows and dr[p] and len(rows[0]) != len(dr[p][0]):
+                    # a level of a factor occurs in removed rows only: 'drop' has fewer columns
+                    res.count("pass-fitted-transform: a level vanishes with the dropped rows (not compared)")
+                    continue
+                parts.append({"rule": "equal", "a": dr[p], "b": rows, "what": "pass-complete-rows:" + p})
+        spec_reqs.append({"op": "c09_spec", "parts": parts})
+        owners.append((case, problems, parts))
     for (case, obs_p), po in zip(pipe_owners, ask(pipe_reqs)):
         if "err" in po:
             res.count("pipeline_skip:" + po["err"])
